@@ -1,5 +1,264 @@
-//! C01 harness — to be written (see /verif/mc/HARNESS_GUIDE.md).
+//! C01 — LU, QR, Cholesky and SVD factors multiply back to the input and solve A*X = B.
+//!
+//! E1 (stateless choice-tree exploration) over
+//!   * the lattice: EVERY m x n matrix over a small integer alphabet (general, symmetric, 4x4
+//!     Hessenberg/ternary), at power-of-two scales 2^-40 .. 2^40, in f64 and f32;
+//!   * the structured families of DESIGN §3 for n up to 40 in six aspects (square, three tall,
+//!     two wide), every member, every scale, both widths;
+//!   * a catalogue of right-hand sides B = A*X0 (+ a part outside range(A)) with 1..4 columns.
+//! One execution = one (matrix, scale, float width); the right-hand-side catalogue is an inner
+//! loop of that execution. The oracle (check.rs) is definition-level: residuals, exact
+//! triangularity, permutation, orthonormality, ordering, normal equations, orthogonality to the
+//! exact null space. Rank, null spaces and definiteness come from exact integer elimination.
+
+mod check;
+mod gen;
+mod util;
+
+use check::RhsMode;
+use gen::{Input, Perturb};
+use mc_core::oracle::IMat;
+use mc_core::{self as mc, json, Harness, Job, Plan, Tier, Value};
+use std::cell::RefCell;
+
+struct C01;
+
+const S2: &[i64] = &[0, 1];
+const S2PM: &[i64] = &[1, -1];
+const S3: &[i64] = &[0, 1, -1];
+const S4: &[i64] = &[0, 1, -1, 2];
+const S5: &[i64] = &[0, 1, -1, 2, -2];
+const D6: &[i64] = &[0, 1, -1, 2, 3, 4];
+const D4: &[i64] = &[1, 2, 3, 0];
+
+thread_local! {
+    static FAM_CACHE: RefCell<Option<(String, Option<Input>)>> = RefCell::new(None);
+}
+
+fn rhs_mode(job: &Job) -> RhsMode {
+    if job.params["rhs"].as_str() == Some("full") {
+        RhsMode::Full
+    } else {
+        RhsMode::PerWidth
+    }
+}
+
+fn ints(v: &Value) -> Vec<i64> {
+    v.as_array().map(|a| a.iter().map(|x| x.as_i64().unwrap()).collect()).unwrap_or_default()
+}
+
+/// positions of a lattice job that are free (not structurally zero)
+fn free_positions(job: &Job, m: usize, n: usize) -> Vec<(usize, usize)> {
+    let shape = job.params["pattern"].as_str().unwrap_or("full");
+    let mut v = Vec::new();
+    for i in 0..m {
+        for j in 0..n {
+            let keep = match shape {
+                "full" => true,
+                "sym" => j <= i,
+                // upper Hessenberg: entries below the first subdiagonal are zero
+                "hess" => i <= j + 1,
+                other => panic!("unknown pattern {}", other),
+            };
+            if keep {
+                v.push((i, j));
+            }
+        }
+    }
+    v
+}
+
+fn lattice_case(job: &Job) {
+    let (m, n) = (job.u("m"), job.u("n"));
+    let alpha = ints(&job.params["alpha"]);
+    let dalpha = {
+        let d = ints(&job.params["dalpha"]);
+        if d.is_empty() {
+            alpha.clone()
+        } else {
+            d
+        }
+    };
+    let pre = ints(&job.params["pre"]);
+    let pert = Perturb { mul: job.i("mul") as i128, add_q: job.i("add") as i128 };
+    let sym = job.params["pattern"].as_str() == Some("sym");
+    let pos = free_positions(job, m, n);
+    let mut q: IMat = vec![vec![pert.apply(0); n]; m];
+    if job.params["pattern"].as_str() == Some("hess") {
+        // structural zeros stay exact zeros under every perturbation
+        q = vec![vec![0; n]; m];
+    }
+    for (idx, &(i, j)) in pos.iter().enumerate() {
+        let al = if sym && i == j { &dalpha } else { &alpha };
+        let k = if idx < pre.len() { pre[idx] as usize } else { mc::choose(al.len()) };
+        let v = pert.apply(al[k]);
+        q[i][j] = v;
+        if sym {
+            q[j][i] = v;
+        }
+    }
+    let e = job.i("e") as i32;
+    let w = job.u("w") as u8;
+    let inp = gen::prepare_int(format!("lattice({}x{},{})", m, n, job.params["pattern"].as_str().unwrap_or("full")), &q, pert.den());
+    check::run_case(&inp, e, w, rhs_mode(job), false);
+    // the Gram matrix of a full-column-rank lattice matrix is an exactly known SPD input for Cholesky
+    if job.b("gram") && inp.rank == n && n >= 2 {
+        let mut g: IMat = vec![vec![0; n]; n];
+        for i in 0..n {
+            for j in 0..n {
+                g[i][j] = (0..m).map(|k| q[k][i] * q[k][j]).sum();
+            }
+        }
+        let gi = gen::prepare_int(format!("gram-of-lattice({}x{})", m, n), &g, pert.den() * pert.den());
+        check::run_case(&gi, e, w, rhs_mode(job), true);
+    }
+}
+
+fn family_case(job: &Job) {
+    let fam = gen::family(job.s("fam"));
+    let n = job.u("n");
+    let variant = mc::choose((fam.variants)(n));
+    let aspect = mc::pick(fam.aspects);
+    let scales: Vec<i32> = ints(&job.params["scales"]).into_iter().map(|x| x as i32).collect();
+    let key = format!("{}|{}|{}|{}", fam.name, n, variant, aspect);
+    let hit = FAM_CACHE.with(|c| c.borrow().as_ref().map(|(k, _)| *k == key).unwrap_or(false));
+    if !hit {
+        let built = gen::build(fam.name, n, variant, aspect);
+        FAM_CACHE.with(|c| *c.borrow_mut() = Some((key, built)));
+    }
+    let inp = FAM_CACHE.with(|c| c.borrow().as_ref().unwrap().1.clone());
+    let Some(inp) = inp else {
+        util::count("family_member_absent");
+        return;
+    };
+    let e = mc::pick(&scales);
+    let w = mc::pick(&[64u8, 32u8]);
+    let mode = if inp.m * inp.n <= 36 { RhsMode::Full } else { RhsMode::PerWidth };
+    util::count("family_cases");
+    check::run_case(&inp, e, w, mode, false);
+}
+
+fn lattice_jobs(jobs: &mut Vec<Job>, pert: Perturb, m: usize, n: usize, pattern: &str, alpha: &[i64], dalpha: &[i64], scales: &[i32], widths: &[u8], shard: usize, rhs: &str, gram: bool) {
+    let probe = Job::new("", json!({"pattern": pattern}));
+    let npos = free_positions(&probe, m, n).len();
+    let sym = pattern == "sym";
+    let shard = shard.min(npos);
+    // alphabet sizes of the leading `shard` positions
+    let pos = free_positions(&probe, m, n);
+    let sizes: Vec<usize> = pos.iter().take(shard).map(|&(i, j)| if sym && i == j && !dalpha.is_empty() { dalpha.len() } else { alpha.len() }).collect();
+    let mut prefixes: Vec<Vec<i64>> = vec![vec![]];
+    for s in sizes {
+        prefixes = prefixes.into_iter().flat_map(|p| (0..s as i64).map(move |k| { let mut q = p.clone(); q.push(k); q })).collect();
+    }
+    for &e in scales {
+        for &w in widths {
+            for pre in &prefixes {
+                let name = format!("lat-{}-{}x{}-a{}{}-f{}-e{}-p{}", pattern, m, n, alpha.len(), if alpha.contains(&0) { "" } else { "nz" }, w, e, pre.iter().map(|k| k.to_string()).collect::<String>());
+                jobs.push(Job::new(
+                    name,
+                    json!({"kind": "lat", "m": m, "n": n, "pattern": pattern, "alpha": alpha, "dalpha": dalpha, "pre": pre, "e": e, "w": w,
+                           "mul": pert.mul as i64, "add": pert.add_q as i64, "rhs": rhs, "gram": gram}),
+                ));
+            }
+        }
+    }
+}
+
+impl Harness for C01 {
+    fn id(&self) -> &'static str {
+        "C01"
+    }
+
+    fn plan(&self, tier: Tier, seed: u64) -> Plan {
+        let t = tier.is_thorough();
+        let pert = gen::perturb_of_seed(seed);
+        let scales: Vec<i32> = if t { gen::ALL_SCALES.to_vec() } else { gen::quick_scales(seed) };
+        let both = [64u8, 32u8];
+        let mut jobs = Vec::new();
+        let alpha = if t { S5 } else { S4 };
+        // 1. the general lattice, every shape up to 3x3
+        let mut shapes: Vec<(usize, usize)> = (1..=3).flat_map(|m| (1..=3).map(move |n| (m, n))).collect();
+        shapes.sort_by_key(|&(m, n)| (m * n, m));
+        for &(m, n) in &shapes {
+            let shard = if m * n == 9 { 2 } else { 0 };
+            lattice_jobs(&mut jobs, pert, m, n, "full", alpha, &[], &scales, &both, shard, if t { "full" } else { "pw" }, true);
+        }
+        // 2. symmetric lattice (Cholesky: positive definite must succeed, clearly indefinite must be refused)
+        for n in 1..=3 {
+            lattice_jobs(&mut jobs, pert, n, n, "sym", S5, D6, &scales, &both, 0, "full", false);
+        }
+        lattice_jobs(&mut jobs, pert, 4, 4, "sym", S3, D4, &scales[..1], &both, 2, "pw", false);
+        if t {
+            lattice_jobs(&mut jobs, pert, 4, 4, "sym", S5, D6, &scales, &both, 3, "pw", false);
+            lattice_jobs(&mut jobs, pert, 5, 5, "sym", S3, D4, &scales[..1], &both, 4, "pw", false);
+        }
+        // 3. 4-row / 4-column shapes
+        for &(m, n) in &[(4usize, 1usize), (1, 4), (4, 2), (2, 4)] {
+            lattice_jobs(&mut jobs, pert, m, n, "full", alpha, &[], &scales, &both, 0, "pw", true);
+        }
+        lattice_jobs(&mut jobs, pert, 4, 4, "full", S2, &[], &scales[..1], &both, 2, "pw", true);
+        lattice_jobs(&mut jobs, pert, 4, 4, "full", S2PM, &[], &scales[..1], &both, 2, "pw", true);
+        if t {
+            for &(m, n) in &[(4usize, 3usize), (3, 4)] {
+                lattice_jobs(&mut jobs, pert, m, n, "full", S3, &[], &scales, &both, 3, "pw", true);
+            }
+            lattice_jobs(&mut jobs, pert, 4, 4, "hess", S3, &[], &scales[1..], &both, 3, "pw", true);
+            lattice_jobs(&mut jobs, pert, 4, 4, "full", S3, &[], &scales[..1], &both, 6, "pw", true);
+        } else {
+            for &(m, n) in &[(4usize, 3usize), (3, 4)] {
+                lattice_jobs(&mut jobs, pert, m, n, "full", S2, &[], &scales, &both, 0, "pw", true);
+            }
+        }
+        // 4. structured families
+        let nmax = if t { 40 } else { 12 };
+        for n in 1..=nmax {
+            for f in gen::FAMILIES {
+                if n >= f.min_n && n <= f.max_n {
+                    jobs.push(Job::new(format!("fam-{}-n{}", f.name, n), json!({"kind": "fam", "fam": f.name, "n": n, "scales": scales})));
+                }
+            }
+        }
+        Plan {
+            jobs,
+            budget_s: if t { 2700 } else { 40 },
+            case_deadline_ms: 20_000,
+            floors: vec![],
+            bounds: json!({
+                "alphabet_perturbation_of_seed": pert.describe(),
+                "scales_log2": scales,
+                "float_widths": ["f64", "f32"],
+                "lattice_general": format!("every m x n matrix, 1<=m,n<=3, over {:?}; 4x1,1x4,4x2,2x4 over the same; 4x4 over {{0,1}} and {{1,-1}} (scale 1){}", alpha, if t { "; 4x3, 3x4 over {0,1,-1}; 4x4 over {0,1,-1} (scale 1); 4x4 upper Hessenberg over {0,1,-1} at the other scales" } else { "; 4x3, 3x4 over {0,1}" }),
+                "lattice_symmetric": format!("every symmetric n x n, n<=3, off-diagonal over {:?}, diagonal over {:?}; 4x4 off-diagonal {:?} diagonal {:?} (scale 1){}", S5, D6, S3, D4, if t { "; 4x4 over the larger alphabets at all scales; 5x5 over the smaller at scale 1" } else { "" }),
+                "gram": "for every full-column-rank lattice matrix G also the SPD matrix G^T G (Cholesky clauses only)",
+                "families": format!("{} structured families, n = 1..{}, every variant, aspects sq/t1/t5/t2n/w1/w5, every scale, both widths", gen::FAMILIES.len(), nmax),
+                "right_hand_sides": "B = A*X0, X0 over {0,1,-1} patterns with 1..4 columns (3 patterns per width in the full catalogue, 1 per width otherwise), plus B with a component outside range(A) for tall / rank-deficient A",
+                "conditioning": "clauses demanded only for cond_2(A) <= 1e6 (oracle one-sided Jacobi); cond-sensitive clauses additionally only when max(m,n)*eps_T*cond <= 1/64",
+            }),
+        }
+    }
+
+    fn run(&self, job: &Job) {
+        match job.kind() {
+            "lat" => lattice_case(job),
+            "fam" => family_case(job),
+            other => panic!("unknown job kind {}", other),
+        }
+    }
+
+    fn rule(&self) -> String {
+        "one execution = one (matrix, scale, float width) with its right-hand-side catalogue; every execution is non-trivial (at least the SVD is computed); distinct = distinct digest of the bits of all returned factors and solutions".into()
+    }
+
+    fn assumptions(&self) -> Vec<String> {
+        vec![
+            "rank, null spaces, definiteness of lattice inputs come from exact i128 elimination; condition numbers from the oracle's one-sided Jacobi SVD".into(),
+            "for tall A the solvers return B overwritten (m rows); the solution is read from the leading n rows, as the library's own callers do".into(),
+            "power-of-two scaling and the integer / quarter-integer alphabets are exact in f32 and f64".into(),
+            "no RNG is involved in the code under test (DenseMatrix::rand is not on any explored path)".into(),
+        ]
+    }
+}
+
 fn main() {
-    eprintln!("MACHINERY-ERROR: harness C01 not built yet");
-    std::process::exit(2);
+    mc::main(C01)
 }
